@@ -13,11 +13,11 @@ A_CF = "CollisionFree: no two different page pre-images among the pages of the t
 A_MODEL = "the hand-written Lean model is the code: tied by the correspondence streams listed in the evidence (DESIGN.md section 4)"
 
 CFG = {
- "C01": dict(streams=S("tsmall","tmid","trand"), level="proof",
+ "C01": dict(streams=S("tsmall","tmid","trand","twide"), level="proof",
     theorems=[P+"C01"],
     text="Theorem C01 (kernel-checked, all histories/level assignments/hashers): histories with the same last-write-wins map yield, after a hash request, the identical tree, root hash and serialisation. Tied to /repo by exhaustive small-scope and random history streams with the full page structure compared after every operation, plus implementation-side oracles (fresh rebuild, reference construction).",
     assumptions=[A_TOTAL, A_LVL, A_MODEL]),
- "C02": dict(streams=S("tsmall","tmid","trand"), level="proof",
+ "C02": dict(streams=S("tsmall","tmid","trand","twide"), level="proof",
     theorems=[P+"C02_no_stale_cache", P+"C02_fresh", P+"C02_gate", P+"C02_regenerated"],
     text="Theorems: the CacheOK invariant holds at every reachable (content, cache-state) pair; a hash request after any interleaving equals the freshly built tree page for page; after any upsert cached root hash and serialisation are unavailable; a hash request restores them. The F1 defect (stale digest) was found by this check and repaired in /repo.",
     assumptions=[A_TOTAL, A_LVL, A_MODEL]),
@@ -29,11 +29,11 @@ CFG = {
     theorems=[P+"C04", P+"C04_some_direction", P+"C04_start_held"],
     text="Theorems (all pairs of hashed real trees: any contents, spans nested / partially overlapping / disjoint / empty, any level structure): both diffs empty implies equal content; if contents differ some direction reports a range; every reported range starts at a key the peer holds. Tied by exhaustive ordered-pair streams (all contents over 4-5 keys x all level assignments) and the implementation-side oracle.",
     assumptions=[A_TOTAL, A_LVL, A_CF, A_MODEL]),
- "C05": dict(streams=S("dsmall","drand","srand"), level="proof",
+ "C05": dict(streams=S("dsmall","drand","ssmall","srand"), level="proof",
     theorems=[P+"C05_progress", P+"C05_rounds", P+"C05_quiescent", P+"C05_reachable"],
     text="Theorems on the replica model (Model/Sync.lean: store + incrementally maintained tree; pull = hash both, serialise, diff, fetch ranges, merge, upsert): for replicas with different content a pull in at least one direction changes the receiver (join and peer-wins); n >= number of disagreeing keys two-way rounds end with equal stores and equal root hashes; under join the result is the pointwise join; converged replicas exchange nothing. The replica model itself is tied to the real code by the srand stream (schedules executed on real trees and on the model, ranges / fetched keys / stores / root hashes compared).",
     assumptions=[A_TOTAL, A_LVL, "NoCollisions: no digest collision among page pre-images during the run", "values are identified with their digests; merge = max on a linear order, or peer-wins", A_MODEL]),
- "C06": dict(streams=S("srand","drand"), level="proof",
+ "C06": dict(streams=S("ssmall","srand","drand"), level="proof",
     theorems=[P+"C06_refine", P+"C06_safe", P+"C06_live"],
     text="PARTIAL in scope (join merge; atomic pulls), full in the quantifiers it covers: for ANY number of replicas and ANY schedule of writes and pulls (theorem, unbounded): no panic and every replica's tree mirrors its store at every step whatever its cache state (refinement); under join nothing is lost or invented (safety); after writes stop, n*|ops|+1 sweeps pulling between all ordered pairs in any order bring every replica to the join of everything written with equal root hashes (liveness). Peer-wins with >= 3 replicas admits fair non-converging schedules at the store level (noted in the file), two-replica peer-wins is C05. Stale in-flight snapshots are exercised by the srand stream only.",
     assumptions=[A_TOTAL, A_LVL, "NoCollisions", "join (max) merge; pulls atomic; values identified with their digests", A_MODEL]),
@@ -45,11 +45,11 @@ CFG = {
     theorems=[P+"C08", P+"C08_histories", P+"C08_empty_peer"],
     text="Theorems: hashed trees with equal content diff to nothing in both directions, for any pair of histories reaching that content; a diff against an empty peer is empty for any local list.",
     assumptions=[A_TOTAL, A_LVL, A_MODEL]),
- "C09": dict(streams=S("tsmall","tmid","trand"), level="proof",
+ "C09": dict(streams=S("tsmall","tmid","trand","twide"), level="proof",
     theorems=[P+"C09", P+"C09_prefix", P+"C09_canonical"],
     text="Theorem: at every state reachable by any history the in-order keys are strictly ascending and the level stratification / non-emptiness invariant holds; these conditions force the unique shape (root_unique).",
     assumptions=[A_TOTAL, A_LVL, A_MODEL]),
- "C10": dict(streams=S("tsmall","tmid","trand"), level="proof",
+ "C10": dict(streams=S("tsmall","tmid","trand","twide"), level="proof",
     theorems=[P+"C10", P+"C10_frame"],
     text="Theorem: after any history the content is the key-sorted last-write-wins map (each key once, latest value digest); an upsert leaves every other key's entry untouched.",
     assumptions=[A_TOTAL, A_LVL, A_MODEL]),
@@ -69,7 +69,7 @@ CFG = {
     theorems=[P+"C14_level", P+"C14_level_bound", P+"C14_root", P+"C14_pages"],
     text="Theorems: level = declarative reference for every byte string and base; after any history the root hash and every page digest equal those of the reference construction built from the sorted content alone. The byte level (token order, SipHash-2-4-128 zero key, finish128 byte order) is executable Lean tied to the siphasher crate and the library by the sip/lvl/hash streams over bases and widths; an independent Rust reference implementation is the implementation-side oracle.",
     assumptions=[A_TOTAL, A_LVL, A_MODEL, "SipHash-2-4-128 modelled, not verified"]),
- "C15": dict(streams=S("tsmall","tmid","trand","dsmall","drand", profiles=["debug","release"]), level="proof",
+ "C15": dict(streams=S("tsmall","tmid","trand","twide","dsmall","drand", profiles=["debug","release"]), level="proof",
     theorems=[P+"C15_history", P+"C15_serialise", P+"C15_iter", P+"C15_traverse", P+"C15_diff"],
     text="Theorems: with every panic/unwrap/expect/assert/debug_assert site of the modelled code an explicit error, every history of upserts and hash requests, serialisation at every state (and Some after a hash), node iteration, traversal and the diff of any two hashed real trees return ok - no assertion is reachable. Streams run in debug (assertions on) and release profiles with catch_unwind around every operation.",
     assumptions=[A_TOTAL, A_LVL, A_MODEL, "allocation failure / stack not modelled"]),
